@@ -244,6 +244,12 @@ DIRECTED = [
      ["restrict ~b0 0", "restrict ~b1 0", "restrict ~b2\\b3 0"]),
     ("allow-custom-bad-nodeset", ["flags 1", "src synthetic pack:2 core:2 pu:2"],
      ["allow 4 b0+b1 b5"]),
+    ("allow-all-with-offline-pus", ["flags 1", "src xml " + os.path.join(C.REPO, "tests/hwloc/xml/16em64t-4s2c2t-offlines.xml")],
+     ["allow 1 - -"]),
+    ("dontmerge-group-over-package-with-numa", ["flags 0", "src synthetic pack:2 [numa(memory=1024)] core:2 pu:1"],
+     ["group ns=b1 dm=1"]),
+    ("cpukinds-register-restrict-register", ["flags 0", "src synthetic pack:2 core:2 pu:2"],
+     ["cpukind 0:000000000000000c 1 a=b 0", "restrict b0+b1+b4 0", "cpukind b0 1 a=b 0"]),
 ]
 
 
